@@ -169,6 +169,10 @@ fn boundary_names() -> Vec<String> {
             v.push(format!("extreme_{op}_port_{port}"));
         }
     }
+    // a value only the kernel can produce: the pty number, driven up by holding that many masters open
+    for n in ["9", "10", "99", "100", "255", "256", "300"] {
+        v.push(format!("extreme_openpty_ptynum_{n}"));
+    }
     for x in ["getpwuid_r_buf_0", "io_uring_entries_u32max", "tcp_read_timeout_empty_buf"] {
         v.push(format!("extreme_{x}"));
     }
@@ -372,6 +376,35 @@ fn setup_extreme(name: &str) -> Option<Scen> {
                 _ => Ret::from(TcpListener::bind(&addr), |_| (vec![], false)),
             }));
         }
+    }
+    if let Some(n) = rest.strip_prefix("openpty_ptynum_") {
+        let n: usize = n.parse().unwrap();
+        // hold n pty masters open (the kernel hands out the lowest free number): the next one gets
+        // a number >= n.  The descriptor limit is raised to its hard value for that.
+        let mut held = vec![];
+        unsafe {
+            let mut rl: libc::rlimit = std::mem::zeroed();
+            libc::getrlimit(libc::RLIMIT_NOFILE, &mut rl);
+            rl.rlim_cur = rl.rlim_max.min(65536);
+            libc::setrlimit(libc::RLIMIT_NOFILE, &rl);
+            for _ in 0..n {
+                let fd = libc::open(c"/dev/ptmx".as_ptr(), libc::O_RDWR | libc::O_NOCTTY | libc::O_CLOEXEC);
+                assert!(fd >= 0, "cannot hold {n} pty masters: {}", std::io::Error::last_os_error());
+                held.push(fd);
+            }
+        }
+        return Some(scen_bg(held, move || {
+            let r = tiny_std::unix::misc::openpty::openpty(None, None, None);
+            match r {
+                Ok(h) => {
+                    let fds = vec![h.master.value(), h.slave.value()];
+                    let mut ret = Ret::ok(fds.clone(), true, Box::new(()));
+                    ret.raw_close = fds;
+                    ret
+                }
+                Err(e) => Ret::err(e),
+            }
+        }));
     }
     match rest {
         "getpwuid_r_buf_0" => Some(scen(move || {
